@@ -20,7 +20,7 @@ type Msg struct {
 	Retain  bool
 }
 
-func (m Msg) String() string { return fmt.Sprintf("%s=%q/q%d/r%t", m.Topic, m.Payload, m.QoS, m.Retain) }
+func (m Msg) String() string { return fmt.Sprintf("%q=%q/q%d/r%t", m.Topic, m.Payload, m.QoS, m.Retain) }
 
 type out struct {
 	msg   Msg
